@@ -99,6 +99,10 @@ func cmdReplayCosOpt(args []string) error {
 			res := e.MatchRequest(rules.NewRequest("http://h.test/", "", rules.TypeDocument))
 			opt := res.GetCosmeticOption()
 			check("Engine.MatchRequest+GetCosmeticOption", optionSet(opt), "")
+			// the same page as its own referrer: the exception also acts as a referrer-level rule, which must not
+			// change the cosmetic option of the page
+			res2 := e.MatchRequest(rules.NewRequest("http://h.test/", "http://h.test/index.html", rules.TypeDocument))
+			check("Engine.MatchRequest(same-site referrer)+GetCosmeticOption", optionSet(res2.GetCosmeticOption()), "")
 			cr := e.GetCosmeticResult("h.test", opt)
 			// decoded observation: specific selectors need css, generic ones css and gcss
 			var dec []string
